@@ -225,3 +225,191 @@ def reduction_asserts(ck, rule, mod, quals):
                                  'non-negative terms, and `%s` is arbitrary data: for data with a negative sum the '
                                  'assertion fails on a correct result' % (u(term), u(term)))
     return n
+
+
+# ---------------------------------------------------------------------------
+# definite assignment of instance attributes in a constructor (finding G5)
+
+def _bool_atoms(test, out):
+    if isinstance(test, ast.BoolOp):
+        for v in test.values:
+            _bool_atoms(v, out)
+    elif isinstance(test, ast.UnaryOp) and isinstance(test.op, ast.Not):
+        _bool_atoms(test.operand, out)
+    else:
+        k = u(test)
+        if k not in out:
+            out.append(k)
+
+
+def _bool_eval(test, env):
+    """Three-valued evaluation (True / False / None) of a test under an assignment of its atoms."""
+    if isinstance(test, ast.BoolOp):
+        vals = [_bool_eval(v, env) for v in test.values]
+        if isinstance(test.op, ast.And):
+            if any(v is False for v in vals):
+                return False
+            return True if all(v is True for v in vals) else None
+        if any(v is True for v in vals):
+            return True
+        return False if all(v is False for v in vals) else None
+    if isinstance(test, ast.UnaryOp) and isinstance(test.op, ast.Not):
+        v = _bool_eval(test.operand, env)
+        return None if v is None else (not v)
+    return env.get(u(test))
+
+
+def attrs_definite_in_constructor(ck, rule, mod, qual, max_atoms=10):
+    """For every truth assignment of the branch conditions of the constructor
+    (atoms = the syntactic conditions, treated as independent), every read of
+    `self.<attr>` must be preceded by a store to it on the path that
+    assignment selects.  A read without a store is an AttributeError for
+    inputs satisfying that assignment (with __slots__ there is no class-level
+    default).  Loop bodies and try blocks are 'maybe executed': their stores do
+    not count, their reads are checked.  Reports each (read site, attribute)
+    once, with the selecting assignment as witness."""
+    import itertools
+    fn = mod.functions.get(qual)
+    if fn is None:
+        ck.missing(rule, 'function %s in %s' % (qual, mod.rel))
+        return 0
+    ck.analysed(mod, fn)
+    selfname = params(fn)[0] if params(fn) else 'self'
+    atoms = []
+    for s in walk_local(fn):
+        if isinstance(s, ast.If):
+            _bool_atoms(s.test, atoms)
+    if len(atoms) > max_atoms:
+        ck.missing(rule, '%s has %d branch conditions: truth-table enumeration not attempted' % (qual, len(atoms)))
+        return 0
+    findings = {}
+    reads_seen = set()
+
+    def reads_of(node):
+        for n in ast.walk(node):
+            if isinstance(n, ast.Attribute) and isinstance(n.ctx, ast.Load) and isinstance(n.value, ast.Name) and n.value.id == selfname:
+                yield n
+
+    def stores_of(stmt):
+        out = set()
+        tg = stmt.targets if isinstance(stmt, ast.Assign) else ([stmt.target] if isinstance(stmt, (ast.AnnAssign, ast.AugAssign)) else [])
+        for t in tg:
+            for e in (t.elts if isinstance(t, (ast.Tuple, ast.List)) else [t]):
+                if isinstance(e, ast.Attribute) and isinstance(e.value, ast.Name) and e.value.id == selfname:
+                    out.add(e.attr)
+        return out
+
+    def run(stmts, have, env, definite=True):
+        """returns False when the path ends (return/raise)."""
+        for s in stmts:
+            if isinstance(s, ast.If):
+                for r in reads_of(s.test):
+                    check(r, s, have, env)
+                v = _bool_eval(s.test, env)
+                if v is True:
+                    if not run(s.body, have, env, definite):
+                        return False
+                elif v is False:
+                    if not run(s.orelse, have, env, definite):
+                        return False
+                else:
+                    h1, h2 = set(have), set(have)
+                    a = run(s.body, h1, env, definite)
+                    b = run(s.orelse, h2, env, definite)
+                    if not a and not b:
+                        return False
+                    keep = (h1 if a else h2) & (h2 if b else h1)
+                    have.clear()
+                    have.update(keep)
+                continue
+            if isinstance(s, ast.Try):
+                hb = set(have)
+                alive = run(s.body, hb, env, definite)
+                outs = [hb] if alive else []
+                for h in s.handlers:
+                    hh = set(have)          # the handler may be entered before any store of the body completed
+                    if run(h.body, hh, env, definite):
+                        outs.append(hh)
+                if not outs:
+                    return False
+                keep = set.intersection(*outs)
+                if s.orelse and alive:
+                    run(s.orelse, keep, env, definite)
+                if s.finalbody:
+                    run(s.finalbody, keep, env, definite)
+                have.clear()
+                have.update(keep)
+                continue
+            if isinstance(s, (ast.For, ast.While, ast.With)):
+                for f in ('iter', 'test'):
+                    e = getattr(s, f, None)
+                    if e is not None:
+                        for r in reads_of(e):
+                            check(r, s, have, env)
+                if isinstance(s, ast.With):
+                    if not run(s.body, have, env, definite):
+                        return False
+                else:
+                    run(s.body, set(have), env, False)
+                    run(getattr(s, 'orelse', []) or [], set(have), env, False)
+                continue
+            if isinstance(s, (ast.Return, ast.Raise)):
+                for r in reads_of(s):
+                    check(r, s, have, env)
+                return False
+            if isinstance(s, (ast.FunctionDef, ast.ClassDef)):
+                continue
+            val = getattr(s, 'value', None)
+            if val is not None:
+                for r in reads_of(val):
+                    check(r, s, have, env)
+            if isinstance(s, ast.AugAssign):
+                for r in reads_of(s.target):
+                    pass
+            for t in (s.targets if isinstance(s, ast.Assign) else []):
+                # reads inside subscripted / attribute-chained targets: self._x[...] = v reads self._x
+                for sub in ast.walk(t):
+                    if isinstance(sub, (ast.Subscript, ast.Attribute)) and sub is not t:
+                        pass
+                if isinstance(t, ast.Subscript):
+                    for r in reads_of(t.value):
+                        check(r, s, have, env)
+            if definite:
+                have.update(stores_of(s))
+        return True
+
+    def check(read, stmt, have, env):
+        reads_seen.add(id(read))
+        if read.attr in have:
+            return
+        # methods / properties of the class are not instance slots
+        if read.attr in class_members:
+            return
+        key = (read.attr, getattr(stmt, 'lineno', 0))
+        findings.setdefault(key, (read, stmt, []))[2].append(dict(env))
+
+    cls = mod.parent.get(fn)
+    class_members = set()
+    if isinstance(cls, ast.ClassDef):
+        for b in cls.body:
+            if isinstance(b, (ast.FunctionDef, ast.AsyncFunctionDef)):
+                class_members.add(b.name)
+            elif isinstance(b, ast.Assign):
+                for t in b.targets:
+                    if isinstance(t, ast.Name) and t.id != '__slots__':
+                        class_members.add(t.id)
+    for values in itertools.product((True, False), repeat=len(atoms)):
+        env = dict(zip(atoms, values))
+        run(fn.body, set(), env)
+    for (attr, _ln), (read, stmt, envs) in sorted(findings.items(), key=lambda kv: kv[0][1]):
+        # the conditions every failing assignment agrees on
+        rel = {a: envs[0][a] for a in atoms if all(e[a] == envs[0][a] for e in envs)}
+        wit = ', '.join('%s is %s' % (a, v) for a, v in rel.items())
+        ck.bad(rule, mod, stmt, qual, 'read of self.%s in: %s' % (attr, u(stmt)[:100]),
+               'no store to self.%s precedes this read on the path selected by {%s}: AttributeError '
+               '(with __slots__ there is no default) for inputs satisfying these conditions' % (attr, wit), wit)
+    n = len(reads_seen)
+    if not findings:
+        ck.ok(rule, mod, fn, '%s: %d attribute reads x %d assignments of %d conditions' % (qual, n, 2 ** len(atoms), len(atoms)),
+              'every read of an instance attribute is preceded by a store for every assignment of the branch conditions')
+    return n
